@@ -568,7 +568,16 @@ class Subprocess(object):
 
         exit_expected = es in self.config.exitcodes
 
-        if self.killing:
+        if self.state == ProcessStates.UNKNOWN:
+            # delivering a signal to this process failed earlier, so its exit
+            # cannot be interpreted: record it and stay in the UNKNOWN state
+            self.killing = False
+            self.delay = 0
+            self.exitstatus = es
+            msg = "exited: %s (%s)" % (processname, msg)
+            self.config.options.logger.warn(msg)
+
+        elif self.killing:
             # likely the result of a stop request
             # implies STOPPING -> STOPPED
             self.killing = False
